@@ -370,8 +370,11 @@ class Program(Sub):
             st.builds(lambda i, j, s: {'do': 'set', 'i': i, 'j': j, 'seed': s}, st.integers(0, 4), st.integers(0, 4), seed),
             st.just({'do': 'snapshot'}),
             st.just({'do': 'invert'}),
-            st.builds(lambda s: {'do': 'dot', 'seed': s}, seed))
+            st.builds(lambda s: {'do': 'dot', 'seed': s}, seed),
+            st.builds(lambda o, k, s, sw: {'do': 'oop', 'op': o, 'kind': k, 'seed': s, 'value': 1.5, 'swap': sw}, st.sampled_from(sorted(IOPS)),
+                      st.sampled_from(['ma-same', 'ma-same', 'ma-one', 'arr-full', 'scalar']), seed, st.booleans()))
         return st.fixed_dictionaries({'rank': st.integers(1, 5), 'length': st.integers(1, 32), 'seed': seed,
+                                      'start': st.sampled_from(['random', 'random', 'identity']),
                                       'steps': st.lists(step, min_size=1, max_size=8)})
 
     def check(self, spec):
@@ -379,7 +382,19 @@ class Program(Sub):
         out = Outcome()
         sig = PID + '/program/'
         L, R = spec['length'], spec['rank']
-        A = make(spec['seed'], L, R, 'NonSpatial', away=0.5)
+        if spec.get('start') == 'identity':
+            # the subclass the library itself uses for I in (I - Omega C): it inherits every operator and setter
+            A = P.IdentityMatrixArray(length=L, rank=R, space=P.Space.NonSpatial) if hasattr(P, 'IdentityMatrixArray') else None
+            if A is None:
+                from importlib import import_module
+                A = import_module('pyPRISM.core.IdentityMatrixArray').IdentityMatrixArray(length=L, rank=R, space=P.Space.NonSpatial)
+            want = np.zeros((L, R, R))
+            for d in range(R):
+                want[:, d, d] = 1.0
+            if not np.array_equal(A.data, want):
+                out.fail(sig + 'identity-not-identity', 'IdentityMatrixArray is not initialised with identity matrices')
+        else:
+            A = make(spec['seed'], L, R, 'NonSpatial', away=0.5)
         ref = A.data.copy()
         snaps = []
         exact = True
@@ -402,6 +417,26 @@ class Program(Sub):
                 A[A.types[i], A.types[j]] = v
                 ref[:, i, j] = v
                 ref[:, j, i] = v
+            elif do == 'oop':
+                # an out-of-place operation in the middle of a history: must see the current contents and leave them alone
+                s2 = dict(st_)
+                s2['space'] = 'NonSpatial'
+                B, Barr, Bbuf = operand(s2, L, R)
+                before = A.data.copy()
+                if st_.get('swap') and st_['kind'] in ('ma-same',):
+                    res = OPS[st_['op']](B, A)
+                    want = loop_apply(OPS[st_['op']], np.broadcast_to(Barr, ref.shape).copy(), ref)
+                else:
+                    res = OPS[st_['op']](A, B)
+                    want = loop_apply(OPS[st_['op']], ref, Barr)
+                if not hasattr(res, 'data') or res.data.shape != want.shape or not (np.array_equal(res.data, want, equal_nan=True) if exact else
+                                                                                     np.allclose(res.data, want, rtol=1e-9, atol=1e-9 * (np.max(np.abs(want)) + 1e-300), equal_nan=True)):
+                    out.fail(sig + 'out-of-place-after-history', 'step %d: out-of-place %s on a MatrixArray with a history of in-place operations (start=%s) differs from '
+                             'the operation applied matrix by matrix to its current contents' % (n, st_['op'], spec.get('start', 'random')))
+                    break
+                if not np.array_equal(A.data, before, equal_nan=True) or (hasattr(res, 'data') and np.shares_memory(res.data, A.data)):
+                    out.fail(sig + 'out-of-place-modifies-operand', 'step %d: out-of-place %s modified or aliases its left operand' % (n, st_['op']))
+                    break
             elif do == 'snapshot':
                 snaps.append((A.get_copy(), A.data.copy()))
             elif do == 'invert':
@@ -428,7 +463,9 @@ class Program(Sub):
                     out.fail(sig + 'snapshot-changed', 'a get_copy() snapshot changed after later in-place operations (step %d)' % n)
                     break
         out.nontrivial = R >= 2 and L >= 2 and len(spec['steps']) >= 2
-        out.label('steps=%d' % len(spec['steps']))
+        out.label('steps=%d' % len(spec['steps']), 'start=' + spec.get('start', 'random'))
+        if any(x['do'] == 'oop' for x in spec['steps']):
+            out.label('has-out-of-place-step')
         return out
 
 
